@@ -31,13 +31,21 @@ Assumptions that are explicit hypotheses:
   (`d6_gather_misses_reportable`).
 
 Findings (each with a kernel-checked witness below):
-* D6 lifted to gather (known): query finer than the database and `threshold_bp > 0`.
-* databases mixing scaled values: the fractions can sum above 1 (`mixed_scaled_fractions_sum_above_one`)
-  and prefetch-mode gather can die on `assert cont` (`mixed_scaled_assertion`).
+* D6g — D6 lifted to gather (known): query finer than the database and `threshold_bp > 0`
+  (`d6_gather_misses_reportable`).
+* C07.1 — databases mixing scaled values: the fractions can sum above 1 (known;
+  `mixed_scaled_fractions_sum_above_one`).
+* D25 — prefetch-mode gather over a database mixing scaled values died on `assert cont` in
+  `CounterGather.peek` (stale counter).  FIXED upstream (lazy refresh in `peek`); the model follows the patched
+  code, `mixed_scaled_no_assertion` keeps the old witness as a regression check, and `peek_never_asserts` /
+  `gather_never_asserts` prove that no `AssertionError` can come out of a prefetch-mode run over any database
+  (given `AssertLaws`, see there).
+* C07.3 — `f_match` is the debiased containment (known; see the `column_defs` comment).
 -/
 import SmVerif.Lemmas.GatherExamples
 import SmVerif.Lemmas.GatherMixed
 import SmVerif.Lemmas.GatherDebias
+import SmVerif.Lemmas.GatherNoAssert
 
 set_option autoImplicit false
 
@@ -53,10 +61,13 @@ variable {σ : Type} {ops : ScoreOps σ}
 reads in the current source (`harness/translators/gather.py` → `Model/Generated.lean`): `_find_best` keeps the
 earlier counter unless the new score is strictly greater (`better`: `ops.gt`); `CounterGather.peek` returns
 nothing when `match_size < n_threshold_hashes` (`belowThreshold`); `calc_threshold_from_bp` divides
-`float(threshold_bp)` by `scaled`, then by the query size, and refuses thresholds `> 1.0` (`calcThreshold`) -/
+`float(threshold_bp)` by `scaled`, then by the query size, and refuses thresholds `> 1.0` (`calcThreshold`);
+`CounterGather.peek` re-counts the entry it is about to return and refreshes / drops a stale counter
+(`peekLoop`, the fix of finding D25) -/
 theorem translator_shapes :
     Gen.gatherFindBestCmp = "gt" ∧ Gen.gatherPeekBelowCmp = "lt" ∧
-    Gen.gatherThresholdShape = "bp/scaled;n/query_size;unattainable-gt-1.0" := by decide
+    Gen.gatherThresholdShape = "bp/scaled;n/query_size;unattainable-gt-1.0" ∧
+    Gen.gatherPeekLoop = "lazy-refresh" := by decide
 
 /-! ### `counter_inv` -/
 
@@ -289,6 +300,48 @@ theorem uniq_disjoint_any_database {pool : List (Sig LS)} (n : Nat) (g gf : GD L
   obtain ⟨h1, h2, _, h4⟩ := run_mixed n g gf rs hinv h
   exact ⟨h1, h2, h4⟩
 
+/-- **the patched `CounterGather.peek` raises no `AssertionError`** (finding D25 cannot recur): for any counter
+whose entries have sorted sketches, positive scaled values and non-zero counters — which `add` (overlap
+required), `consume` (zero counters deleted) and `peek` itself (refreshed counters are non-zero or deleted)
+maintain, whatever the scaled values — and any current query.  `AssertLaws.nonzero` (a non-empty overlap has a
+non-zero containment) rules out `assert cont`, the assert D25 hit; `AssertLaws.above` is the second assert
+(`cont >= threshold`) stated as a law of the score arithmetic. -/
+theorem peek_never_asserts {thr : Nat} (laws : AssertLaws ops thr) {c : Counter LS} {cur : LS}
+    (hc : CNZ c) (hcs : Sorted cur.hs) : c.peek lsOps ops cur thr ≠ .error .assertion :=
+  Counter.peek_na laws hc hcs
+
+/-- **a prefetch-mode gather run over ANY database raises no `AssertionError`**: query well formed, every
+database sketch sorted with a scaled value in `[1, 2^31]` (no relation between the scaled values of the query
+and of the sketches, nor among the sketches), counters built by `counter_gather`, any number of rounds.
+Covers the `assert`s of `peek`, of `__next__` (`match.scaled`) and of `GatherResult` (non-empty unique
+intersection).  Together with `uniq_disjoint_any_database`: a run over a mixed-scaled database goes through
+with pairwise disjoint unique overlaps. -/
+theorem gather_never_asserts {thr : Nat} (laws : AssertLaws ops thr) {q : LS} (hq : q.WF)
+    {dbs : List (List (Sig LS))} {cs : List (Counter LS)} {ign : Bool} {g : GD LS}
+    (hdb : ∀ db ∈ dbs, ∀ d ∈ db, Sorted d.mh.hs ∧ 1 ≤ d.mh.scaled ∧ d.mh.scaled ≤ 2 ^ 31)
+    (hcs : List.Forall₂ (fun db c => counterGather lsOps db q thr = .ok c) dbs cs)
+    (h : GD.init lsOps q (cs.map CObj.cg) thr ign none none = .ok g) (n : Nat) :
+    g.run lsOps ops n ≠ .error .assertion :=
+  run_na laws n g (ninv_init hq hdb hcs h)
+
+/-- ... and in every state such a run reaches, `__next__` raises none and keeps the invariant -/
+theorem next_never_asserts {thr : Nat} (laws : AssertLaws ops thr) {g : GD LS} (hinv : NInv thr g) :
+    g.next lsOps ops ≠ .error .assertion ∧
+    ∀ g' r, g.next lsOps ops = .ok (g', r) → NInv thr g' :=
+  ⟨next_na laws hinv, fun _ _ h => next_ninv laws hinv h⟩
+
+/-- the laws hold for `threshold_bp = 0` both for plain fractions and for the exact value of the debiased
+containment -/
+theorem assert_laws_threshold_zero : AssertLaws ratOps 0 ∧ AssertLaws qOps 0 :=
+  ⟨ratOps_assertLaws_zero, qOps_assertLaws_zero⟩
+
+/- FULL STATEMENT (not proved): `gather_never_asserts` without the hypothesis `AssertLaws.above` for
+   `threshold_bp > 0`, i.e. `contained_by(match) >= threshold` whenever `match_size >= n_threshold_hashes`.  For
+   the doubles of the code this follows from monotone rounding (`c/(d·bias) ≥ c/d ≥ n/d` with `bias ≤ 1`) if libm
+   `pow` returns a value in `[0, 1]`; for the EXACT value of the expression against the ROUNDED threshold it is
+   not a theorem (`fl(n/d)` can exceed `n/d` by more than `c/(d·bias)` exceeds `c/d`).  The correspondence stream
+   exercises it (thresholds 0 … 5 kbp) and has never seen it fail. -/
+
 /- FULL STATEMENT (not proved / false): for databases mixing scaled values the reported FRACTIONS
    `f_unique_to_query = |U_i| / orig_query_len_i` sum to at most 1.  False: `orig_query_len_i` is the size of
    the query downsampled to round `i`'s comparison scaled, which grows during the run
@@ -308,10 +361,11 @@ A with 15 of 20 query hashes, round 1 reports B with 3 of the 5 hashes the query
 theorem mixed_scaled_fractions_sum_above_one :
     mixSumCheck = true ∧ 15 * 5 + 3 * 20 > 20 * 5 := ⟨mixSumCheck_true, by decide⟩
 
-/-- **finding (databases mixing scaled values).**  Same data in prefetch mode: `__next__` raises
-`AssertionError` (`assert cont` in `CounterGather.peek`): the counter of A was taken at scaled 2 and is stale
-at the counter's resolution 4. -/
-theorem mixed_scaled_assertion : mixAssertCheck = true := mixAssertCheck_true
+/-- **regression for finding D25 (fixed upstream).**  Same data in prefetch mode: before the fix `__next__` raised
+`AssertionError` (`assert cont` in `CounterGather.peek`: the counter of A was taken at scaled 2 and is stale
+at the counter's resolution 4).  The patched `peek` re-counts A (0 at scaled 4), drops it and reports B:
+one result, 3 of the 5 hashes the query has at scaled 4. -/
+theorem mixed_scaled_no_assertion : mixNoAssertCheck = true := mixNoAssertCheck_true
 
 /-! ### non-vacuity -/
 
